@@ -83,7 +83,12 @@ def main():
         sid = os.path.basename(d.rstrip("/"))
         if sid in done or (only and only not in sid):
             continue
-        prop = json.load(open(d + "meta.json")).get("property", sid[:3])
+        meta = json.load(open(d + "meta.json"))
+        if meta.get("not_detected"):
+            # kept for the record: a change no check reports (reason in the meta file and in DESIGN.md)
+            print(f"{sid}: recorded as not detected - skipped", flush=True)
+            continue
+        prop = meta.get("property", sid[:3])
         items.append((sid, prop, d + "patch.diff"))
     print(f"{len(items)} seeded changes, {n} workers", flush=True)
     results, lock = [], threading.Lock()
